@@ -6,7 +6,9 @@ ID = "C09"
 LEAN_MODULE = "Ucfg.Props.C09"
 CORRESPONDENCE = "Normalize.normMapInto (explicit entry order) / Merge.mergeDictP ~ NewFrom / Merge / Unpack repeated on identical arguments"
 RULE = ("the C05 inputs biased to keys that overlap after dotted-path expansion (a dotted and a nested definition of the same "
-        "prefix, index keys next to lists, primitives under a prefix that is also a dictionary) and merges of such configs; every "
+        "prefix, index keys next to lists, primitives under a prefix that is also a dictionary, nulls and list padding in one spelling "
+        "against values in the other, sparse overlays of one address space) and merges of such configs, plus the C08 reference graphs "
+        "read by one whole-config Unpack; every "
         "case is executed 12 times (thorough 48) on maps built with permuted insertion orders (for <= 8 keys the Go runtime iterates "
         "a rotation of the insertion order) and the set of outcomes (same data / same error kind) must be a singleton; the model is "
         "evaluated on the given and the reversed entry order. Non-trivial: at least two keys overlap after expansion. Distinct by "
@@ -24,8 +26,42 @@ def overlapping(rng):
     kinds = set()
     entries = []
     base = rng.pick(OVER)
-    r = rng.below(7)
-    if r == 0:       # a.0 next to a: [..]
+    r = rng.below(13)
+    if r == 7:       # a null leaf in the dotted spelling, the value in the nested one
+        entries = [(base + ".b", None), (base, M([("b", U(1))]))]; kinds.add("nil-leaf-vs-dict")
+    elif r == 8:
+        entries = [(base + ".b.c", None), (base, M([("b", M([("c", U(1)), ("d", U(2))]))]))]; kinds.add("nil-deep-vs-dict")
+    elif r == 9:     # an index beyond the nested list: the padding in front of it meets the list's elements
+        k = 1 + rng.below(3)
+        entries = [(base + "." + str(k), U(1)), (base, A([U(7 + i) for i in range(rng.below(k + 1))]))]; kinds.add("padding-vs-list")
+    elif r == 10:    # the null nested, the value dotted
+        entries = [(base, M([("b", None), ("c", U(3))])), (base + ".b", U(1))]; kinds.add("dict-nil-vs-leaf")
+    elif r in (11, 12):
+        # a sparse overlay: every leaf of a small address space gets its value in one spelling and null (or nothing) in the other
+        leaves = ["b", "c", "d.e", "d.f", "l.0", "l.1"]
+        nested, dotted = {}, []
+        for lf in leaves:
+            w = rng.below(4)
+            val = U(1 + rng.below(9))
+            if w == 0:
+                dotted.append((base + "." + lf, val)); nested[lf] = None if rng.chance(0.5) else "absent"
+            elif w == 1:
+                nested[lf] = val
+                if rng.chance(0.5): dotted.append((base + "." + lf, None))
+            elif w == 2:
+                nested[lf] = val
+        def build():
+            d = []
+            for k in ("b", "c"):
+                if nested.get(k, "absent") != "absent": d.append((k, nested[k]))
+            sub = [(k.split(".")[1], nested[k]) for k in ("d.e", "d.f") if nested.get(k, "absent") != "absent"]
+            if sub: d.append(("d", M(sub)))
+            l = [nested.get(k, "absent") for k in ("l.0", "l.1")]
+            if l[1] != "absent": d.append(("l", A([None if l[0] == "absent" else l[0], l[1]])))
+            elif l[0] != "absent": d.append(("l", A([l[0]])))
+            return M(d)
+        entries = dotted + [(base, build())]; kinds.add("sparse-overlay")
+    elif r == 0:       # a.0 next to a: [..]
         entries = [(base + ".0", U(1)), (base, A([U(2), U(3)]))]; kinds.add("index-vs-list")
     elif r == 1:     # a: prim, a.b: prim
         entries = [(base, U(1)), (base + ".b", U(2))]; kinds.add("prim-vs-prefix")
@@ -53,11 +89,24 @@ def gen(rng, tier):
         src, kinds = overlapping(rng)
         yield {"k": "norm", "from": src, "opts": [opt("PathSep", ".")], "repeat": rep, "_tag": "order/" + "+".join(sorted(kinds)),
                "_nt": True, "_sig": "%s|%d" % ("+".join(sorted(kinds)), len(src["m"]))}
+    # references: one Unpack of a whole config whose settings reference each other must not depend on which setting
+    # the runtime visits first (mutually defaulting settings are the open known finding D17 and are left out)
+    from . import c08
+    for c in c08.gen(rng.fork("refs"), "quick"):
+        if any(r.get("r") == "view" for r in c["reads"]) and rng.chance(0.5 if tier == "quick" else 1.0):
+            c["repeat"] = 8 if tier == "quick" else 24
+            c["_tag"] = "order/refs-" + c["_tag"]
+            yield c
     for c in c05.gen(rng.fork("c05"), "quick"):
         if rng.chance(0.4 if tier == "quick" else 1.0):
             c["repeat"] = rep
             c["_tag"] = "order/" + c["_tag"]
             yield c
+
+
+def normalize_result(case, res):
+    from . import c08
+    return c08.normalize_result(case, res)
 
 
 def nontrivial(case, impl):
